@@ -142,6 +142,14 @@ Proof.
   rewrite <- Hc. apply Hwf. exact Hin.
 Qed.
 
+Theorem sub_block_shape (K : crs S) mask rp cp : wf K = true -> nrows K = length mask -> ncols K = length mask ->
+  wf (sub_block K mask rp cp) = true /\ nrows (sub_block K mask rp cp) = count_of rp mask /\
+  ncols (sub_block K mask rp cp) = count_of cp mask.
+Proof.
+  intros H1 H2 H3. split; [exact (sub_block_wf K mask rp cp H1 H2 H3)|].
+  split; [exact (sub_block_nrows K mask rp cp H2)|exact (sub_block_ncols K mask rp cp)].
+Qed.
+
 (* gather after scatter *)
 Lemma gather_scatter_gen (mask : list bool) : forall nu0 np0 (pu pp u p : vec),
   length pu = nu0 -> length pp = np0 -> length u = count_of false mask -> length p = count_of true mask ->
